@@ -1877,11 +1877,19 @@ handle_undef_directive(const string &args, const YYLTYPE &loc) {
  */
 void CPPPreprocessor::
 handle_ifdef_directive(const string &args, const YYLTYPE &loc) {
-  VERIF_EVENT("{\"e\":\"Eval\",\"k\":\"ifdef\",\"val\":" << (is_manifest_defined(args) ? 1 : 0) << "}");
-  if (!is_manifest_defined(args)) {
+  if (!evaluate_ifdef_condition(args, loc)) {
     // The macro is undefined.  Skip stuff.
     skip_false_if_block(true);
   }
+}
+
+/**
+ * Returns true if the group controlled by "#ifdef args" is to be kept.
+ */
+bool CPPPreprocessor::
+evaluate_ifdef_condition(const string &args, const YYLTYPE &loc) {
+  VERIF_EVENT("{\"e\":\"Eval\",\"k\":\"ifdef\",\"val\":" << (is_manifest_defined(args) ? 1 : 0) << "}");
+  return is_manifest_defined(args);
 }
 
 /**
@@ -1889,11 +1897,19 @@ handle_ifdef_directive(const string &args, const YYLTYPE &loc) {
  */
 void CPPPreprocessor::
 handle_ifndef_directive(const string &args, const YYLTYPE &loc) {
-  VERIF_EVENT("{\"e\":\"Eval\",\"k\":\"ifndef\",\"val\":" << (is_manifest_defined(args) ? 0 : 1) << "}");
-  if (is_manifest_defined(args)) {
+  if (!evaluate_ifndef_condition(args, loc)) {
     // The macro is defined.  Skip stuff.
     skip_false_if_block(true);
   }
+}
+
+/**
+ * Returns true if the group controlled by "#ifndef args" is to be kept.
+ */
+bool CPPPreprocessor::
+evaluate_ifndef_condition(const string &args, const YYLTYPE &loc) {
+  VERIF_EVENT("{\"e\":\"Eval\",\"k\":\"ifndef\",\"val\":" << (is_manifest_defined(args) ? 0 : 1) << "}");
+  return !is_manifest_defined(args);
 }
 
 /**
@@ -1901,6 +1917,17 @@ handle_ifndef_directive(const string &args, const YYLTYPE &loc) {
  */
 void CPPPreprocessor::
 handle_if_directive(const string &args, const YYLTYPE &loc) {
+  if (!evaluate_if_condition(args, loc)) {
+    // The expression result is false.  Skip stuff.
+    skip_false_if_block(true);
+  }
+}
+
+/**
+ * Returns true if the group controlled by "#if args" is to be kept.
+ */
+bool CPPPreprocessor::
+evaluate_if_condition(const string &args, const YYLTYPE &loc) {
   // When expanding manifests, we should replace unknown macros with 0.
   string expr = args;
   expand_manifests(expr, true);
@@ -1922,13 +1949,7 @@ handle_if_directive(const string &args, const YYLTYPE &loc) {
   }
 
   VERIF_EVENT("{\"e\":\"Eval\",\"k\":\"if\",\"val\":" << (expression_result ? 1 : 0) << "}");
-  if (expression_result) {
-    // The expression result is true.  We continue.
-    return;
-  }
-
-  // The expression result is false.  Skip stuff.
-  skip_false_if_block(true);
+  return expression_result != 0;
 }
 
 /**
@@ -2134,20 +2155,35 @@ skip_false_if_block(bool consider_elifs) {
         if (level == 0 && consider_elifs) {
           // If we pass this test, we're in.
           _save_comments = true;
-          handle_if_directive(args, loc);
-          return;
+          if (evaluate_if_condition(args, loc)) {
+            return;
+          }
+          // This condition is false as well: keep skipping here, rather than
+          // recursing once for every #elif of a long chain.
+          _save_comments = false;
+          VERIF_EVENT("{\"e\":\"SkipEnter\",\"celifs\":1}");
         }
       } else if (command == "elifdef") {
         if (level == 0 && consider_elifs) {
           _save_comments = true;
-          handle_ifdef_directive(args, loc);
-          return;
+          if (evaluate_ifdef_condition(args, loc)) {
+            return;
+          }
+          // This condition is false as well: keep skipping here, rather than
+          // recursing once for every #elif of a long chain.
+          _save_comments = false;
+          VERIF_EVENT("{\"e\":\"SkipEnter\",\"celifs\":1}");
         }
       } else if (command == "elifndef") {
         if (level == 0 && consider_elifs) {
           _save_comments = true;
-          handle_ifndef_directive(args, loc);
-          return;
+          if (evaluate_ifndef_condition(args, loc)) {
+            return;
+          }
+          // This condition is false as well: keep skipping here, rather than
+          // recursing once for every #elif of a long chain.
+          _save_comments = false;
+          VERIF_EVENT("{\"e\":\"SkipEnter\",\"celifs\":1}");
         }
       } else if (command == "endif") {
         // Skip any args.
